@@ -52,6 +52,23 @@ for m in sorted((V / "seeded").glob("*/meta.json")):
     rows.append(f"| {d['id']} | {d['property']} | {d['change']} | {d.get('needs_to_manifest', d.get('expected',''))} | {caught} | {str(out)[:420]} |")
 seeded_table = "\n".join(rows)
 
+# per-property list of the theorems currently in Props/Cxx.lean (so §4 never goes stale)
+def _strip(src):
+    src = re.sub(r"/-.*?-/", "", src, flags=re.S)
+    return re.sub(r"--.*", "", src)
+def _thms(prop):
+    f = V / "lean" / "Frequenz" / "Props" / f"{prop}.lean"
+    if not f.exists():
+        return []
+    return re.findall(r"^(?:@\[[^\]]*\]\s*)?theorem\s+([A-Za-z_][\w.']*)", _strip(f.read_text()), flags=re.M)
+def _add_thms(m):
+    prop = m.group(1)
+    names = _thms(prop)
+    spec = V / "harness" / "props.d" / f"{prop}.json"
+    ext = json.loads(spec.read_text()).get("extracted", []) if spec.exists() else []
+    return (m.group(0) + f"*Now in `Props/{prop}.lean` ({len(names)} theorems, all audited on every run):* " + ", ".join(f"`{n}`" for n in names)
+            + f".  *Regenerated from source for this check:* " + ", ".join(f"`Extracted/{e}.lean`" for e in ext) + ".\n\n")
+text = re.sub(r"^### (C\d\d) — [^\n]*\n", _add_thms, text, flags=re.M)
 text = text.replace("<!--FIXED_TABLE-->", fixed_table).replace("<!--KNOWN_TABLE-->", known_table).replace("<!--SEEDED_TABLE-->", seeded_table).replace("<!--HARMLESS_TABLE-->", harmless_table)
 (V / "DESIGN.md").write_text(text)
 print("DESIGN.md:", len(text.splitlines()), "lines;", len(fixed), "fixed,", len(known), "known,", len(rows) - 2, "seeded")
